@@ -90,7 +90,9 @@ Record ohist := {
   o_heap : heap;                       (* recorded individuals, parents by index *)
   o_ng : list (option nat);            (* observed native generation per individual *)
   o_gens : list gen;                   (* observed generations *)
-  o_snaps : list (list nat) }.         (* observed archive snapshots *)
+  o_snaps : list (list nat);           (* observed archive snapshots *)
+  o_finished : bool }.                 (* optimise() returned normally (a run ended by an error that was propagated to
+                                          the caller never reaches the recording of the final choices) *)
 
 Definition nth_ng (o : ohist) (r : nat) : option nat :=
   match nth_error (o_ng o) r with Some x => x | None => None end.
@@ -159,7 +161,7 @@ Fixpoint list_nat_eqb (a b : list nat) : bool :=
 Definition holds_b (o : ohist) : bool :=
   (* generations numbered consecutively from zero, first = initial assumptions, last = final choices *)
   list_nat_eqb (map g_num (o_gens o)) (seq 0 (length (o_gens o)))
-  && first_label_ok (o_gens o) && last_label_ok (o_gens o)
+  && first_label_ok (o_gens o) && (negb (o_finished o) || last_label_ok (o_gens o))
   (* one archive snapshot per generation, members from that or an earlier generation *)
   && snaps_ok (o_gens o) (o_snaps o) []
   (* members: valid fitness, verified graph, native generation <= generation, once per generation *)
